@@ -10,7 +10,8 @@ import export as X
 import cert as C
 import gen as G
 
-THEOREMS = ["Adc.spinRef_sound", "Adc.splitIdx_sound", "Adc.adm_split", "Adc.checkEquiv_sound", "Adc.rename_eval"]
+THEOREMS = ["Adc.spinRef_sound", "Adc.splitIdx_sound", "Adc.adm_split", "Adc.checkEquiv_sound", "Adc.rename_eval",
+            "Adc.restricted_sound", "Adc.forgetSpin_sound", "Adc.sumOver_rename_bij"]
 
 
 def with_spin(i, s):
@@ -198,7 +199,17 @@ def run(ctx):
                 if expand:
                     expect = h_filter(coulomb(expect))
                 if restricted:
-                    expect = forget_spin(expect)
+                    # reference of the restricted clause by the Lean model forgetSpin (theorem forgetSpin_sound); the python
+                    # relabelling is only kept as a cross-check of the driver
+                    ans = ctx.drv().ask({"op": "forgetspin", "e": X.j_expr(expect)})
+                    if not ans.get("ok"):
+                        ctx.count("restricted_reference_refused(name clash / delta between different spins)")
+                        continue
+                    lean_expect = X.expr_from_json(ans["e"])
+                    py_expect = forget_spin(expect)
+                    if sorted(map(repr, lean_expect)) != sorted(map(repr, py_expect)):
+                        ctx.count("info_forget_spin_python_vs_lean_differ(text)")
+                    expect = lean_expect
                 ctx.count(f"variant expand={expand} restricted={restricted}")
                 r = ctx.equiv(expect, h_filter(x_2), f"transform {tspin} expand={expand} restricted={restricted}")
                 if isinstance(r, dict):
@@ -236,7 +247,7 @@ def finish_args(ctx):
                       "harness-side statement of the model hypotheses: the filter 'tensor vanishes on non-spin-conserving blocks' (ERI, "
                       "t-amplitudes, Coulomb), the relation V = v - v for expand_eri, beta -> alpha relabelling for the restricted case"],
         assumptions=["ERI / t-amplitudes / Coulomb integrals vanish on non-spin-conserving blocks; other tensors are unrestricted",
-                     "restricted: tensor values do not depend on the spin labels (checked as relabelling, no Lean theorem)",
+                     "restricted: alpha and beta tensors coincide (SpinBlind) and the orbital model has a spin flip (Flip): forgetSpin_sound",
                      "registered intermediates and their declared spin blocks are not covered here"],
         explanation="the reference is built by the Lean model spinRef (targets relabelled, every summed index split into alpha+beta; "
                     "spinRef_sound: same value as the spin-orbital expression at the relabelled assignment, for all models); the code's "
